@@ -284,6 +284,19 @@ def explore(run, tier):
         for nb in ('none', 'zero', 'omit'):
             cases.append({'rows': rows, 'cols': tcols, 'codec': codec, 'b': 1, 'cli': False, 'nb': nb})
             cases.append({'rows': rows[:3], 'cols': tcols, 'codec': codec, 'b': 1, 'cli': False, 'nb': nb, 'samefile': bool(i % 2)})
+    # tables that hold file header / trailer messages (1644 with function code 697 / 695) in the MIDDLE, several of them,
+    # trailer before header, message numbers descending: the rows come back in the order given, with the values given
+    if 'DE24' in cols and 'DE71' in cols:
+        for ci, codec in enumerate(('latin_1', 'cp500', 'cp037')):
+            for cli in (False, True):
+                rows = [{'MTI': '1240', 'DE2': '5' * 16, 'DE24': '200', 'DE71': '40'},
+                        {'MTI': '1644', 'DE2': '', 'DE24': '695', 'DE71': '30'},
+                        {'MTI': '1240', 'DE2': '4' * 16, 'DE24': '200', 'DE71': '20'},
+                        {'MTI': '1644', 'DE2': '', 'DE24': '697', 'DE71': '10'},
+                        {'MTI': '1644', 'DE2': '', 'DE24': '697', 'DE71': '10'},
+                        {'MTI': '1240', 'DE2': '3' * 16, 'DE24': '205', 'DE71': '5'},
+                        {'MTI': '1644', 'DE2': '', 'DE24': '695', 'DE71': '99999999'}]
+                cases.append({'rows': rows, 'cols': ['MTI', 'DE2', 'DE24', 'DE71'], 'codec': codec, 'b': (ci + int(cli)) % 2, 'cli': cli})
     # the commands through their own argument parsers, the IPM encoding named by an ALIAS of the codec
     for name, canon in (('latin-1', 'latin_1'), ('iso-8859-1', 'latin_1'), ('ibm500', 'cp500'), ('IBM037', 'cp037'),
                         ('cp500', 'cp500'), ('L1', 'latin_1')):
